@@ -8,6 +8,9 @@
 //!              | (scope ID NODE ...) create_child_scope, handle ID
 //!              | (task T N)          create_suspense_task: N chained awaits (gates), then done
 //!              | (spawn T N)         spawn_local_scoped: the same body without a suspense guard
+//!              | (flip ID)           a child scope whose cleanup clears a flag, followed by an effect that tracks the flag and holds a
+//!                                    SuspenseTaskGuard for the enclosing boundary while it is alive (a hand-made "busy" indicator):
+//!                                    when the enclosing scope is disposed the cleanup re-runs the effect in the middle of the disposal
 //!              | (res T N)           create_isomorphic_resource whose fetch is the same body, read once while loading (the read
 //!                                    registers a guard with the enclosing boundary; the guards live in a signal of the scope)
 //!   SCHEDULE ::= ((go T) | (dispose ID) ...)
@@ -106,6 +109,15 @@ fn build(nodes: &[Sx], w: &Rc<RefCell<World>>) {
                 } else {
                     spawn_local_scoped(body);
                 }
+            }
+            "flip" => {
+                let flag = use_global_scope().run_in(|| create_signal(true)); // the flag outlives the scope that is disposed
+                let _ = create_child_scope(move || on_cleanup(move || flag.set(false)));
+                create_effect(move || {
+                    flag.track();
+                    let guard = SuspenseTaskGuard::new();
+                    on_cleanup(move || drop(guard));
+                });
             }
             "res" => {
                 let t: u32 = l[1].num();
